@@ -166,7 +166,7 @@ def rule_f2(repo, res):
     """F2: decode_by_char must not call bytes.decode() on the result of a
     one-byte read: a single byte cannot carry a multi-byte character, so a
     binary stream and a bytes object disagree on any non-ASCII label."""
-    fn = repo.function("__init__", "decode_by_char")
+    fn = repo.full_function("__init__", "decode_by_char")
     # names bound to single-byte reads: for X in iter(lambda: f.read(1), ...) / X = f.read(1)
     onebyte = set()
     for n in ast.walk(fn):
@@ -195,7 +195,7 @@ def rule_f2b(repo, res):
     """F2b: the end-of-stream test of decode_by_char must look at what read() returned, not at decoded text: an
     incremental decoder returns '' for the lead byte(s) of a multi-byte character, which is not the end of the
     stream."""
-    fn = repo.function("__init__", "decode_by_char")
+    fn = repo.full_function("__init__", "decode_by_char")
     loops = [n for n in ast.walk(fn) if isinstance(n, ast.For)]
     res.floor("read loops in decode_by_char", len(loops), 1)
     for lp in loops:
@@ -238,7 +238,7 @@ def rule_f3(repo, res):
     text through the text path and another through the binary fall-back."""
     from . import flow
     for mod in ("__init__",):
-        fn = repo.function(mod, "get_text_from")
+        fn = repo.full_function(mod, "get_text_from")
         stream = fn.args.args[0].arg
         is_tell = lambda e: isinstance(e, ast.Call) and isinstance(e.func, ast.Attribute) and e.func.attr == "tell" \
             and norm(e.func.value) == stream
